@@ -197,7 +197,7 @@ def check(spec, ctx):
 @st.composite
 def bad_case(draw):
     which = draw(st.sampled_from(["dur0", "dur_neg", "hop0", "hop_neg"]))
-    v = {"dur0": 0.0, "dur_neg": -draw(st.sampled_from([5e-324, 1.0, 1e-9])), "hop0": 0.0, "hop_neg": -draw(st.sampled_from([5e-324, 1.0, 1e-9]))}[which]
+    v = {"dur0": draw(st.sampled_from([0.0, -0.0, 0])), "dur_neg": -draw(st.sampled_from([5e-324, 1.0, 1e-9])), "hop0": draw(st.sampled_from([0.0, -0.0, 0])), "hop_neg": -draw(st.sampled_from([5e-324, 1.0, 1e-9]))}[which]
     return {"start": 0.0, "length": draw(st.sampled_from([0.0, 1.0, 10.0])), "which": which, "v": v, "incomplete": draw(st.booleans()), "salt": 5}
 
 
